@@ -12,7 +12,7 @@ namespace etl {
 /// and R2.
 /// \ingroup ratio
 template <typename R1, typename R2>
-using ratio_add = ratio<R1::num * R2::den + R2::num * R1::den, R1::den * R2::den>;
+using ratio_add = typename ratio<R1::num * R2::den + R2::num * R1::den, R1::den * R2::den>::type;
 
 } // namespace etl
 
